@@ -110,6 +110,8 @@ class FindIdentifiers(_ast_util.NodeVisitor):
 
     def visit_FunctionDef(self, node):
         self._add_declared(node.name)
+        for n in node.decorator_list:
+            self.visit(n)
         self._visit_function(node, False)
 
     def visit_ListComp(self, node):
@@ -144,13 +146,26 @@ class FindIdentifiers(_ast_util.NodeVisitor):
         # argument names in each function header so they arent
         # counted as "undeclared"
 
+        # default values are evaluated in the enclosing scope
+        for default in node.args.defaults + node.args.kw_defaults:
+            if default is not None:
+                self.visit(default)
+
         inf = self.in_function
         self.in_function = True
 
+        argnames = [
+            arg_id(arg)
+            for arg in self._expand_tuples(
+                node.args.posonlyargs + node.args.args + node.args.kwonlyargs
+            )
+        ]
+        for arg in (node.args.vararg, node.args.kwarg):
+            if arg is not None:
+                argnames.append(arg_id(arg))
+
         local_ident_stack = self.local_ident_stack
-        self.local_ident_stack = local_ident_stack.union(
-            [arg_id(arg) for arg in self._expand_tuples(node.args.args)]
-        )
+        self.local_ident_stack = local_ident_stack.union(argnames)
         if islambda:
             self.visit(node.body)
         else:
